@@ -38,6 +38,7 @@ BUDGET = {"quick": {"examples": 350, "shards": 4}, "thorough": {"examples": 8000
 FLOORS = {"msg_in_pong_window": 0.25, "msg_near_tick": 0.15, "died": 0.5}
 
 K_DYADIC = [0.5, 1.0, 2.0, 7.25, 20.0, 32.0]
+START_OFF = 0.0
 EXCLUDED_TYPES = {5, 122}  # DisconnectRequest closes the session; 122 would answer the probe request
 
 
@@ -121,6 +122,11 @@ def run_case(case: dict) -> CaseResult:
             proto = env.dev.session.transport.proto
             env.loop.sim_at(t0 + on * (K / 128), lambda p=proto: None if env.dev.session.transport.closing else p.pause_writing())
             env.loop.sim_at(t0 + off * (K / 128), lambda p=proto: None if env.dev.session.transport.closing else p.resume_writing())
+        # application requests that run into their own (short) timeout, e.g. inside a pong window: a request timing out
+        # is the request's business, the keepalive schedule and the moment of death do not move
+        for ri, (off, tmo) in enumerate(case.get("reqs", [])):
+            env.loop.sim_at(t0 + off * (K / 128), lambda ri=ri, tmo=tmo: None if sess.conn.connection_state.name != "CONNECTED" else
+                            env.spawn(f"req{ri}", sess.cli.get_voice_assistant_configuration(timeout=tmo * (K / 128))))
         # a waiter with a huge timeout observes the connection's fatal error
         env.spawn("probe", sess.cli.get_voice_assistant_configuration(timeout=1e5))
         from vf.simloop import START
@@ -181,8 +187,22 @@ def run_case(case: dict) -> CaseResult:
         gap = (got_death - last) / K
         if not (5.5 - 1e-9 < gap <= 6.5 + 1e-9):
             res.violations.append(Violation(ID, "c10:detection-window", f"dead {gap:.4f}K after the last sign of life"))
+    for ri, (off, tmo) in enumerate(case.get("reqs", [])):
+        rr = env.results.get(f"req{ri}")
+        if rr is None:
+            continue  # started after the death / beyond the horizon
+        t_end_want = t0 + (off + tmo) * (K / 128)
+        if rr[0] == "exc" and type(rr[1]).__name__ == "TimeoutAPIError":
+            if not same(rr[3] + START_OFF, t_end_want + START_OFF) and (got_death is None or rr[3] < got_death - 1e-6):
+                res.violations.append(Violation(ID, "c10:request-timeout-instant", f"request {ri} timed out at {rel(rr[3])}K, its timeout ends at {rel(t_end_want)}K"))
+        elif rr[0] == "exc" and got_death is not None and abs(rr[3] - got_death) <= 1e-6:
+            pass  # failed with the connection
+        elif rr[0] == "ok":
+            res.violations.append(Violation(ID, "c10:request-answered-by-nobody", f"request {ri}"))
     # classes
     classes = set()
+    if case.get("reqs"):
+        classes.add("requests_timing_out")
     arr = sorted(state["arrivals"])
     # replay model to find armed windows
     tick = t0 + K
@@ -244,6 +264,8 @@ def _case(draw, tier):
         case["cut_at_k"] = draw(st.sampled_from([3.25, 5.75, 10.25, 20.75, 61.25]))
     if draw(st.integers(0, 2)) == 0:
         case["misalign"] = draw(st.sampled_from([1, 2, 2]))
+    if draw(st.integers(0, 3)) == 1:
+        case["reqs"] = [[2 * draw(st.integers(0, 30 * 64)), 2 * draw(st.one_of(st.integers(1, 64), st.integers(1, 64 * 5)))] for _ in range(draw(st.integers(1, 3)))]
     if draw(st.integers(0, 3)) == 0:
         on = 2 * draw(st.integers(0, 20 * 64))
         case["pauses"] = [[on, on + 2 * draw(st.one_of(st.integers(1, 100), st.integers(64, 64 * 12)))]]
@@ -267,6 +289,11 @@ def enumerated(tier):
         msgs = [[64 * i + 33 if (64 * i + 33) % 2 else 64 * i + 32 + 1, 8] for i in range(nslots) if pat >> i & 1]
         yield {"K": 2.0, "noise": pat % 3 == 0, "msgs": msgs, "pauses": [[2 * (pat % 97), 2 * (pat % 97) + 64 * (1 + pat % 11)]]}
     yield {"K": 2.0, "noise": False, "msgs": [], "pauses": [[2, 20 * 128]]}
+    # requests timing out inside the pong window of the first / a later ping
+    for off in (130, 200, 300, 400, 600):
+        for tmo in (20, 64, 128, 250):
+            yield {"K": 2.0, "noise": tmo == 64, "msgs": [], "reqs": [[off, tmo]]}
+            yield {"K": 2.0, "noise": False, "msgs": [[129 + 128 * 5 + 33, 8]], "reqs": [[off, tmo], [off + 700, tmo]]}
     # every server-sendable type once as the only sign of life inside a pong window
     for tid in server_types():
         yield {"K": 1.0, "noise": False, "msgs": [[129 + 2 * (tid % 50), tid]], "subscribe": [tid] if tid % 2 else []}
